@@ -323,7 +323,26 @@ func enumerateWriter(t *rapid.T, r *core.SplitMix, surface string, input interfa
 	n := len(want)
 	inputSig := core.Hash64(want)
 	sampled := false
-	for pos := 0; pos < n; pos++ {
+	// every position; for outputs of tens of kilobytes (the rare frame of
+	// thousands of rows) the positions around the buffer sizes in use, the
+	// first and the last bytes, and a seeded sample of the rest
+	positions := make([]int, 0, n)
+	if n <= 12000 {
+		for pos := 0; pos < n; pos++ {
+			positions = append(positions, pos)
+		}
+	} else {
+		core.Probe(surface + "-large-output-sampled-positions")
+		for _, c := range []int{0, 1, 2, 4095, 4096, 4097, 16384, 32768, 65535, 65536, 65537, n - 65537, n - 65536, n - 4097, n - 4096, n - 3, n - 2, n - 1} {
+			if c >= 0 && c < n {
+				positions = append(positions, c)
+			}
+		}
+		for i := 0; i < 40; i++ {
+			positions = append(positions, r.Intn(n))
+		}
+	}
+	for _, pos := range positions {
 		for shapeIx, short := range []bool{false, true, false} {
 			once := shapeIx == 2
 			shape := "zero-bytes-and-error"
@@ -374,6 +393,11 @@ func drawWriteFrame(t *rapid.T, csvSafe bool) (*gen.FrameSpec, gen.Scramble, qfr
 	if rapid.IntRange(0, 25).Draw(t, "bigframe") == 0 {
 		// enough output to cross bufio's 4 KiB buffer inside encoding/csv
 		b.MaxRows, b.MinRows = 120, 100
+	}
+	if gen.Rare(t, "hugeframe", 400) {
+		// thousands of rows (size thresholds at which a writer may change strategy)
+		fs := gen.DrawBigFrame(t, 2048, 2600)
+		return fs, gen.Scramble{}, fs.Build()
 	}
 	fs := gen.DrawFrame(t, b)
 	scr := gen.DrawScramble(t, fs)
